@@ -47,7 +47,10 @@ func verifZlibStub(r io.Reader) (io.ReadCloser, error) {
 	in, _, _ := rd.Drain(r, 1<<20)
 	// deterministic in its input: the same compressed bytes inflate the same way
 	for i, prev := range VerifZlibIn {
-		if verifSameBytes(prev, in) {
+		// (semantic equality, decided by the solver: the path forks on it, so on the
+		// "different" side the model really makes the bytes differ and the native stub -
+		// which compares values - takes the same side)
+		if verifEqBytes(prev, in) {
 			VerifZlibIn = append(VerifZlibIn, in)
 			VerifZlibMode = append(VerifZlibMode, VerifZlibMode[i])
 			VerifZlibOut = append(VerifZlibOut, VerifZlibOut[i])
